@@ -17,6 +17,8 @@ import (
 	"golang.org/x/image/font/gofont/goregular"
 	"golang.org/x/text/language"
 
+	"seehuhn.de/go/geom/matrix"
+	"seehuhn.de/go/postscript/cid"
 	"seehuhn.de/go/postscript/funit"
 	"seehuhn.de/go/postscript/type1"
 
@@ -28,6 +30,7 @@ import (
 	"seehuhn.de/go/sfnt/header"
 	"seehuhn.de/go/sfnt/internal/debug"
 	"seehuhn.de/go/sfnt/maxp"
+	"seehuhn.de/go/sfnt/name"
 	"seehuhn.de/go/sfnt/opentype/classdef"
 	"seehuhn.de/go/sfnt/opentype/coverage"
 	"seehuhn.de/go/sfnt/opentype/gdef"
@@ -203,6 +206,37 @@ func padCount(name string) (int, bool) {
 	return n, true
 }
 
+// synthCID: a CID-keyed CFF font with two Font DICTs.
+func synthCID(n int) *sfnt.Font {
+	f := synthCFF(n)
+	o := f.Outlines.(*cff.Outlines)
+	for _, g := range o.Glyphs {
+		g.Name = ""
+	}
+	o.Encoding = nil
+	o.Private = append(o.Private, &type1.PrivateDict{BlueValues: []funit.Int16{-20, 0, 500, 520}, BlueScale: 0.039625, BlueShift: 7, BlueFuzz: 1, StdHW: 40, StdVW: 70})
+	o.FDSelect = func(g glyph.ID) int { return int(g) % 2 }
+	o.ROS = &cid.SystemInfo{Registry: "Adobe", Ordering: "Identity", Supplement: 0}
+	o.GIDToCID = make([]cid.CID, n)
+	for i := range o.GIDToCID {
+		o.GIDToCID[i] = cid.CID(2 * i)
+	}
+	o.FontMatrices = []matrix.Matrix{matrix.Identity, matrix.Identity}
+	return f
+}
+
+// manyNames: a name table with three Windows languages and one Macintosh language.
+func manyNames() []byte {
+	mk := func(fam, sub string) *name.Table {
+		return &name.Table{Family: fam, Subfamily: sub, FullName: fam + " " + sub, Version: "Version 1.500", PostScriptName: "Verif-Regular", Copyright: "none"}
+	}
+	info := &name.Info{
+		Mac:     name.Tables{"en": mk("Verif", "Regular")},
+		Windows: name.Tables{"en-US": mk("Verif", "Regular"), "de-DE": mk("Verif", "Normal"), "fr-FR": mk("V\u00e9rif", "Normal")},
+	}
+	return info.Encode(1)
+}
+
 // layout tables: one ligature-free GSUB (single substitution), one pair
 // adjustment GPOS (the structure read.go builds from a kern table), a GDEF
 // with glyph classes.
@@ -273,12 +307,17 @@ var (
 	baseCache = map[string][]byte{}
 )
 
-var baseNames = []string{"ttf5", "ttf5h", "ttf5x", "ttf1", "cff5", "cff5x", "cff1", "debug", "gocut", "goregular"}
+var baseNames = []string{"ttf5", "ttf5h", "ttf5x", "ttf5n", "ttf1", "cff5", "cff5x", "cff1", "cid5", "debug", "gocut", "goregular"}
 
 // baseFont returns the bytes of a base font file.
 func baseFont(name string) (b []byte, err error) {
 	baseMu.Lock()
 	defer baseMu.Unlock()
+	return baseFont0(name)
+}
+
+// baseFont0: baseFont with the lock held.
+func baseFont0(name string) (b []byte, err error) {
 	if b, ok := baseCache[name]; ok {
 		return b, nil
 	}
@@ -306,6 +345,24 @@ func baseFont(name string) (b []byte, err error) {
 	case "ttf5x":
 		f = synthTTF(5, true)
 		addLayout(f)
+	case "ttf5n":
+		// ttf5x with a name table in several languages on both platforms
+		b, err := baseFont0("ttf5x")
+		if err != nil {
+			return nil, err
+		}
+		c, err := parseContainer(b)
+		if err != nil {
+			return nil, err
+		}
+		c.tabs["name"] = manyNames()
+		out, err := c.bytes()
+		if err == nil {
+			baseCache[name] = out
+		}
+		return out, err
+	case "cid5":
+		f = synthCID(6)
 	case "cff5":
 		f = synthCFF(5)
 	case "cff1":
